@@ -1,0 +1,5 @@
+//go:build !verif
+
+package fio
+
+func verifEvent(kind string, path string, data []byte, n int64) {}
